@@ -332,6 +332,7 @@ def run_check(check_id: str, tier: str, seed: int) -> int:
         "known_findings_reproduced": reproduced,
         "unlisted_violations": n_unlisted,
         "slowest_shard_s": round(max(shard_times.values()), 2) if shard_times else 0.0,
+        "slowest_shard": shards[max(shard_times, key=shard_times.get)] if shard_times else None,
     }
     if M.notes:
         coverage["notes"] = sorted(M.notes)
